@@ -6,29 +6,58 @@ SPEC = dict(
     harness=['h_seq.c'],
     level='exploration',
     memcheck_cases={'thorough': 1600},
-    rule='seeded histories of 30-80 operations on two vectors or two fixed buffers (element sizes 0,1,2,3,4,7,8,12,16,24,33; buffer capacities 0..40; half of the containers live in caller-provided storage via ctor/dtor instead of new/die): '
+    rule='SMALL case class: seeded histories of 30-80 operations on two vectors or two fixed buffers (element sizes 0,1,2,3,4,7,8,12,16,24,33; buffer capacities 0..40; half of the containers live in caller-provided storage via ctor/dtor instead of new/die): '
          'push/pull at both ends, insert, remove, store (with and without copy callback), erase (with and without destructor), setn, setm, setz, sort, '
          'push_fore+sort_fore, push_back+sort_back, push_sort, search, whole-vector swap, at/of/top/end/foreach; indices and counts drawn from explicit '
          'classes {0, mid, num-1, num, num+1, SIZE_MAX, SIZE_MAX-1, (size_t)-num, huge, in-range}; the capacity state (exactly full / spare slot) is '
          'forced before remove, pull_fore, sort_fore and sort_back because each has two implementations selected by it. After EVERY call: element '
          'size, count <= capacity, count and all element bytes vs an array model, returned pointer inside owned storage on an element boundary, '
          'removed element intact and parked past the live range, destructor call counts, refusal of the fixed buffer when full. '
-         'distinct_nontrivial = distinct (container kind, operation, element-size class, index class(es), capacity state) combinations judged.',
+         'The comparators handed to sort/sort_fore/sort_back/push_sort/search return, per case (from seed and case number, logged), -1/0/+1, the key-byte difference, '
+         'INT_MIN/INT_MAX or magnitudes varying with the difference (both case classes): only the sign is contractual. '
+         'LARGE case class (every 61st case in quick, every 793rd in thorough; 99 / 1514 cases): one vector or buffer (element sizes 1,2,3,4,7,8,12,16,24,33; '
+         'vector by new or ctor; buffer growable by setm, or fixed in caller storage / one a_buf_new at full size) is driven from empty through every power of '
+         'two 2^k, k = 8..kmax, to 2^kmax+3..62 elements, then to a random size up to 1.5*2^kmax, then back down through the powers of two, then re-used by '
+         'setz with another element size and refilled in bulk, then destroyed (ctor vectors: destroyed, constructed again, refilled, destroyed). '
+         'kmax: quick 16 for element size <= 4, 15 for <= 8, 14 for <= 16, 13 above (>= 2^18 bytes in every case); thorough 16 for every size, 17 for 1/6 of the sizes <= 2. '
+         'It has its own model (array of 32-bit ids; element bytes = big-endian key (id & mask) in the first min(size,4) bytes + a 64-bit mix of the id; 3 key masks give '
+         'unique keys or runs of equal keys with different tails) and compares the complete state (element size, count <= capacity, count, every byte) at every count '
+         '2^k-3..2^k+2 going up, 2^k+3..2^k-3 going down, and after each operation of the battery run at every station (7 of 30 operations in quick, 14 in thorough, all 30 '
+         'at 2^kmax and at the random size; the count is topped up to the station size before each): insert at 0/mid/num-1/num/SIZE_MAX/near the end, insert into the exactly full '
+         'container, remove at 0/mid/num-2/near the end/num-1/num/SIZE_MAX in the spare and in the exactly-full state (full state: count raised to the capacity with setn, or setm(num) '
+         'for the growable buffer; dropped again afterwards), store of 1,2,255,256,257,4095,4096,4097 or random <700 elements from an exact-size source with and without copy '
+         'callback, erase of a middle / front chunk, clipped at the end, with count SIZE_MAX(-1), at idx == num, one element, with the destructor handed exactly the erased '
+         'elements in order, setn shrink + regrow, setm, sort (sorted by key + permutation by rank matching) + search (present, absent, smallest, largest key) + push_fore/sort_fore, '
+         'push_back/sort_back, push_sort in both capacity states with smallest / largest / present / random key, accessors at 0, num-1, num, mem-1, mem, 255..65537, SIZE_MAX and '
+         'negative offsets, swap of the large vector with a small one of another element size (worked on under the other handle, swapped back), refusal of push/insert/store/push_sort by the '
+         'exactly full buffer (growable buffer: at every count 2^k-3..2^k+1). Pushes between stations (1/128 push_fore/insert/remove/pull) are checked in O(1) (slot returned, count, capacity). '
+         'distinct_nontrivial = distinct (container kind, operation, element-size class, index class(es), capacity state) combinations judged, plus for the large class '
+         '(kind, operation, element-size class, floor(log2 count), operation class).',
     exhaustive={},
     require=['state-compared-with-model', 'returned-pointer-inside-owned-storage', 'removed-element-intact-and-past-live-range',
              'buf-refuses-when-full', 'remove-path-full', 'remove-path-spare', 'sort_fore-path-full', 'sort_fore-path-spare',
              'sort_back-path-full', 'sort_back-path-spare', 'push_sort', 'sorted-insert-keeps-order-and-elements', 'sort-sorted-permutation',
              'search-finds-iff-present', 'erase-out-of-range-reports-obounds', 'erase-destroys-each-erased-element-once', 'setz-rederives-capacity',
-             'vec-swap', 'accessors', 'foreach-macros', 'die-destroys-each-element-once', 'ctor-dtor-on-caller-storage', 'pull-from-empty-returns-null'],
+             'vec-swap', 'accessors', 'foreach-macros', 'die-destroys-each-element-once', 'ctor-dtor-on-caller-storage', 'pull-from-empty-returns-null',
+             'comparator-returns-minus-one-zero-plus-one', 'comparator-returns-key-difference', 'comparator-returns-int-min-int-max', 'comparator-returns-varying-magnitude',
+             'large-state-compared-with-model', 'large-pow2-checkpoint', 'large-pow2-checkpoint-down', 'large-count-ge-65536-compared', 'large-bytes-ge-65536-compared',
+             'large-returned-pointer-inside-owned-storage', 'large-removed-element-intact-and-past-live-range', 'large-remove-path-full', 'large-remove-path-spare',
+             'large-store', 'large-store-ge-256-elements', 'large-erase', 'large-destroys-each-dropped-element-once-in-order', 'large-setn-shrink-regrow', 'large-setm',
+             'large-sort-sorted-permutation', 'large-search-finds-iff-present', 'large-sorted-insert-keeps-order-and-elements', 'large-push_sort',
+             'large-sort_fore-path-full', 'large-sort_fore-path-spare', 'large-sort_back-path-full', 'large-sort_back-path-spare', 'large-accessors',
+             'large-vec-swap-large-with-small', 'large-buf-refuses-when-full', 'large-setz-reuse', 'large-exit-and-reuse', 'large-die-destroys-each-element-once'],
     cov_files=['vec.c', 'buf.c'], cov_cases=600,
     assumptions=_COMMON + [
         'capacities whose byte size overflows size_t (setn/setm/store with counts near SIZE_MAX) are outside the domain',
         'a_buf_setm is only called with mem >= current count (shrinking below the count is not a documented operation)',
         'which slot a removed element is parked in is not prescribed (only: owned, past the live range, bytes intact)',
-        'the position of a sorted-insert among equal keys is not prescribed (any position that keeps the order is accepted)'],
+        'the position of a sorted-insert among equal keys is not prescribed (any position that keeps the order is accepted)',
+        'large case class: the capacity of a vector is only required to be >= the count and never to shrink on push/setm/setn (the growth factor is not judged); '
+        'a_buf_setm is not applied to a buffer living in caller storage'],
     level_text='Lock-step reference model over seeded operation histories with explicit index classes (incl. SIZE_MAX sentinels) and controlled capacity '
                'state, compared after every call, on a build where every container block is an exact-size malloc block under ASan/UBSan. Histories and '
                'indices are unbounded, so sampling with class coverage is the reachable level; evidence lists how often each (function, path) ran.',
-    level_note='trusted: the array model in harness/h_seq.c (semantics taken from vec.h/buf.h documentation); default allocator (malloc/realloc) under ASan',
+    level_note='trusted: the array model and the id model of the large case class in harness/h_seq.c (semantics taken from vec.h/buf.h documentation); '
+               'libc qsort for ranking the two sides in the permutation check of sort; default allocator (malloc/realloc) under ASan',
     technique='seeded operation histories against a lock-step array model, ASan/UBSan red zones on exact-size blocks',
 )
